@@ -7,7 +7,6 @@ import (
 	"fmt"
 	"os"
 	"path/filepath"
-	"strings"
 
 	"github.com/JunNishimura/Goit/internal/store"
 	"github.com/spf13/cobra"
@@ -16,7 +15,7 @@ import (
 func revParse(rootGoitPath string, head *store.Head, refNames ...string) error {
 	for _, refName := range refNames {
 		var refPath string
-		if strings.ToLower(refName) == "head" {
+		if refName == "HEAD" {
 			refPath = filepath.Join(rootGoitPath, "refs", "heads", head.Reference)
 		} else {
 			refPath = filepath.Join(rootGoitPath, "refs", "heads", refName)
